@@ -4,7 +4,7 @@
 # (2) passes the existing suite, (3) makes the demonstration fail, and that the demonstration
 # passes without it.  On success stores it as /verif/seeded/<PROP><x>/.
 set -u
-P=$1; X=$2; SRC=$3
+P=$1; X=$2; SRC=$3; DEMOFLAGS=${4:-}
 WT=/tmp/mutcheck
 LOG=/tmp/mutcheck_$P$X.log
 if [ ! -d $WT ]; then git -C /repo worktree add --detach $WT HEAD >/dev/null 2>&1 || exit 2; fi
@@ -14,9 +14,9 @@ cargo test --workspace --no-fail-fast --offline > $LOG 2>&1
 PASS=$(grep -E "^test result: ok" $LOG | awk '{s+=$4} END{print s}')
 FAIL=$(grep -cE "^test result: FAILED|error(\[|:)" $LOG)
 cp $SRC/demo_$X.rs tests/demo_seeded.rs
-cargo test --offline --test demo_seeded > $LOG.demo_with 2>&1; RC_WITH=$?
+RUSTFLAGS="$DEMOFLAGS" cargo test --offline --test demo_seeded > $LOG.demo_with 2>&1; RC_WITH=$?
 git apply -R $SRC/$X.patch.diff
-cargo test --offline --test demo_seeded > $LOG.demo_without 2>&1; RC_WITHOUT=$?
+RUSTFLAGS="$DEMOFLAGS" cargo test --offline --test demo_seeded > $LOG.demo_without 2>&1; RC_WITHOUT=$?
 rm -f tests/demo_seeded.rs
 echo "$P$X: suite passed=$PASS failed_markers=$FAIL demo_with_patch_rc=$RC_WITH demo_without_rc=$RC_WITHOUT"
 if [ "$FAIL" = "0" ] && [ $RC_WITH -ne 0 ] && [ $RC_WITHOUT -eq 0 ]; then
